@@ -112,9 +112,9 @@ PROPS = {
               'output file names, -pool, -xattr, -xattr-match (both arguments), the device path; generated names contain no user text; '
               'format strings: the emitted form is exactly (format #f "<template>" <arguments>) with the template the concatenation of '
               'tesc(literal text) (quote, backslash and tilde escaped), the fixed placeholders and the escapes, strftime selectors and '
-              '%{xattr:NAME} names as escaped string literals.',
-        not_decided=['a read-back lemma for a whole format template (concatenation of escaped pieces) is not stated; per-piece escaping is proved',
-                     '`reads back as exactly two top-level forms` for the whole program (no reader specification of the full Scheme grammar)',
+              '%{xattr:NAME} names as escaped string literals; lemma: the template of every supported format is read through by the '
+              'string reader and ends exactly at the closing quote the compiler emits (compositional reads_through lemmas).',
+        not_decided=['`reads back as exactly two top-level forms` for the whole program (no reader specification of the full Scheme grammar)',
                      'which characters a word or quoted string may contain (winnow combinators in prelude.rs)'],
     ),
     'C20': dict(
